@@ -135,14 +135,14 @@ func (t *TrackedListener) Accepted() int {
 
 // LWCfg configures a listener world
 type LWCfg struct {
-	BaseTLS   *tls.Config
-	Options   []nodeenrollment.Option // nil: server's Opts()
-	OptionsSet bool                   // use Options even if nil
-	Unix      bool
-	FetchFn   protocol.FetchCredsFn
-	GenFn     protocol.GenerateServerCertificatesFn
-	Acceptors int  // default 1
-	NoAccept  bool // do not start acceptors (caller drives Accept)
+	BaseTLS    *tls.Config
+	Options    []nodeenrollment.Option // nil: server's Opts()
+	OptionsSet bool                    // use Options even if nil
+	Unix       bool
+	FetchFn    protocol.FetchCredsFn
+	GenFn      protocol.GenerateServerCertificatesFn
+	Acceptors  int  // default 1
+	NoAccept   bool // do not start acceptors (caller drives Accept)
 }
 
 // PanicRec is a recovered panic out of Accept
